@@ -514,50 +514,6 @@ Example pin_val_fmt_Time_time_format : val_fmt_Time_time_format =
     (t "None").
 Proof. vm_compute. reflexivity. Qed.
 
-Example pin_val_re_DATETIME_PATTERN : val_re_DATETIME_PATTERN =
-    (t "(?P<year>\d{4})-(?P<month>\d{2})-(?P<day>\d{2})[T ](?P<hr>\d{2}):(?P<min>\d{2}):(?P<sec>\d{2})(?P<sec_frac>\.\d+)?").
-Proof. vm_compute. reflexivity. Qed.
-
-Example pin_val_re_DATE_PATTERN : val_re_DATE_PATTERN =
-    (t "(?P<year>\d{4})-(?P<month>\d{2})-(?P<day>\d{2})").
-Proof. vm_compute. reflexivity. Qed.
-
-Example pin_val_re_DateTime_local : val_re_DateTime_local =
-    (t "(?P<year>\d{4})-(?P<month>\d{2})-(?P<day>\d{2})[T ](?P<hr>\d{2}):(?P<min>\d{2}):(?P<sec>\d{2})(?P<sec_frac>\.\d+)?\Z").
-Proof. vm_compute. reflexivity. Qed.
-
-Example pin_val_re_DateTime_offset : val_re_DateTime_offset =
-    (t "(?P<year>\d{4})-(?P<month>\d{2})-(?P<day>\d{2})[T ](?P<hr>\d{2}):(?P<min>\d{2}):(?P<sec>\d{2})(?P<sec_frac>\.\d+)?(?P<tz_hr>[+-]\d{2}):(?P<tz_min>\d{2})\Z").
-Proof. vm_compute. reflexivity. Qed.
-
-Example pin_val_re_DateTime_utc : val_re_DateTime_utc =
-    (t "(?P<year>\d{4})-(?P<month>\d{2})-(?P<day>\d{2})[T ](?P<hr>\d{2}):(?P<min>\d{2}):(?P<sec>\d{2})(?P<sec_frac>\.\d+)?Z\Z").
-Proof. vm_compute. reflexivity. Qed.
-
-Example pin_val_re_Date_offset : val_re_Date_offset =
-    (t "(?P<year>\d{4})-(?P<month>\d{2})-(?P<day>\d{2})((?P<tz_hr>[+-]\d{2}):(?P<tz_min>\d{2})|Z)\Z").
-Proof. vm_compute. reflexivity. Qed.
-
-Example pin_val_re_OFFSET_PATTERN : val_re_OFFSET_PATTERN =
-    (t "(?P<tz_hr>[+-]\d{2}):(?P<tz_min>\d{2})").
-Proof. vm_compute. reflexivity. Qed.
-
-Example pin_val_re_TIME_PATTERN : val_re_TIME_PATTERN =
-    (t "(?P<hr>\d{2}):(?P<min>\d{2}):(?P<sec>\d{2})(?P<sec_frac>\.\d+)?").
-Proof. vm_compute. reflexivity. Qed.
-
-Example pin_val_re_UUID_PATTERN : val_re_UUID_PATTERN =
-    (t "[a-fA-F0-9]{8}-[a-fA-F0-9]{4}-[a-fA-F0-9]{4}-[a-fA-F0-9]{4}-[a-fA-F0-9]{12}").
-Proof. vm_compute. reflexivity. Qed.
-
-Example pin_val_re_inbase_date : val_re_inbase_date =
-    (t "(?P<year>\d{4})-(?P<month>\d{2})-(?P<day>\d{2})").
-Proof. vm_compute. reflexivity. Qed.
-
 Example pin_val_re_inbase_duration : val_re_inbase_duration =
     (t "(?P<sign>-?)P(?:(?P<years>\d+)Y)?(?:(?P<months>\d+)M)?(?:(?P<days>\d+)D)?(?:T(?:(?P<hours>\d+)H)?(?:(?P<minutes>\d+)M)?(?:(?P<seconds>\d+(\.\d+)?)S)?)?\Z").
-Proof. vm_compute. reflexivity. Qed.
-
-Example pin_val_re_inbase_time : val_re_inbase_time =
-    (t "(?P<hr>\d{2}):(?P<min>\d{2}):(?P<sec>\d{2})(?P<sec_frac>\.\d+)?").
 Proof. vm_compute. reflexivity. Qed.
